@@ -295,7 +295,15 @@ def check_fortran(lookups, rec, do_compile):
         low = ident.lower()
         if kind in ("var", "func") and n not in ("<t>", "<dt>"):
             last = low.split("%")[-1]
-            if last.startswith("dagrt_") or last.startswith("drtf_"):
+            if last in ("dagrt_t", "dagrt_dt"):
+                rec.violation("fortran-preassigned-identifier-issued",
+                              f"{n!r} -> {ident!r}, the identifier pre-assigned to <t> / <dt>", wit)
+                return
+            # (a name that itself sits in the generator's namespace keeps its prefix; it must only stay clear of
+            # the identifiers that are actually taken)
+            own = n.split(">")[-1].lower().replace(".", "_")
+            intrudes = own.startswith("dagrt_") or own.startswith("drtf_")
+            if not intrudes and (last.startswith("dagrt_") or last.startswith("drtf_")):
                 rec.violation("fortran-reserved-identifier-issued", f"{n!r} -> {ident!r}", wit)
                 return
     by_ident = {}
@@ -382,6 +390,11 @@ def gen_set(rng):
         if s.startswith("dagrt_") or not s:
             continue
         names.add(s)
+    if rng.random() < 0.15:
+        # per-step names that sit in the generator's own namespace and are spelled like the identifiers it has
+        # pre-assigned to <t> and <dt> (those two are looked up as well)
+        names.update(rng.sample(["dagrt_t", "dagrt_dt", "dagrt_T", "dagrt_dT", "dagrt_Dt", "dagrt.t"], rng.randint(1, 3)))
+        names.update(["<t>", "<dt>"])
     return sorted(names)
 
 
@@ -430,7 +443,7 @@ def run_shard(shard, rec):
                     ["f", "F", "f^", "f_", "y", "rhs_2", "0", "if",
                      # reserved words / digits hidden behind characters that sanitising removes or replaces
                      "_lambda", ".if", "-class", "__import", "<in", "^None", "_0", "*1f", "_", "__", "^", "True",
-                     "not^", "f.g", "is", "_is"])) for _ in range(rng.randint(0, 4))]
+                     "not^", "f.g", "is", "_is", "dagrt.dt", "dagrt_T"])) for _ in range(rng.randint(0, 4))]
                 lk += fn
                 # (every third set: a reference counter for EVERY name -- counters of confusable names must differ too)
                 nrc = len(names) if i % 3 == 0 else min(len(names), rng.randint(0, 3))
